@@ -188,6 +188,18 @@ Theorem c19_concurrent_vec_prefix_complete : forall val s, WritersModel.cvreach 
 Proof. exact Writers.cv_prefix_complete. Qed.
 Print Assumptions c19_concurrent_vec_prefix_complete.
 
+(** trace inclusion for the writers: an accepted log (cases_vec_*.v) is a run of the fetch_add
+    system in which call c writes the c-th observed item list and receives the c-th observed start,
+    every call has finished, and the final snapshot is the observed final vector *)
+Theorem c19_writer_replay_sound : forall init ws final,
+  WritersModel.check_case (init, ws, final) = true ->
+  exists s, WritersModel.reachable (Writers.items_of ws) init s /\
+    (forall c st, In (c, st) (WritersModel.resv s) ->
+       WritersModel.pcs s c = WritersModel.CDone st /\ st = fst (nth c ws (0, []))) /\
+    WritersModel.snapshot s = final.
+Proof. exact Writers.writer_replay_sound. Qed.
+Print Assumptions c19_writer_replay_sound.
+
 (** NotificationList::notify between two resets: at quiescence the list holds exactly the ids that
     were notified, each exactly once (no lost notification, no duplicate), for any number of
     notifying threads and any interleaving of their load / swap / push steps *)
